@@ -95,6 +95,24 @@ class C05(Prop):
             if case.tag == "word-name" and case.expect is not None and got != case.expect:
                 return f"unit name {case.text!r} read as {got}, expected {case.expect}"
             return None
+        if isinstance(case.expect, tuple) and case.expect[0] == "MIXED":
+            if impl.startswith("C ERR"):
+                return None  # refusing two prefixes on one unit is admissible
+            from fractions import Fraction
+            scale, dims = Fraction(1), [0] * 8
+            got = impl.split(" ")[1]
+            for ent in ([] if got == "-" else got.split(",")):
+                k, pw, pf = ent.rsplit(":", 2)
+                rec = self._bykey.get(k)
+                if rec is None:
+                    return f"unit expression read as {got}: unknown unit {k}"
+                scale *= (Fraction(10) ** int(pf) * rec[4]) ** int(pw)
+                for i in range(8):
+                    dims[i] += rec[3][i] * int(pw)
+            if tuple(dims) != case.expect[2] or scale != case.expect[1]:
+                return (f"unit expression {case.text!r} accepted as {got} (scale {scale}, dims {tuple(dims)}), "
+                        f"but it denotes scale {case.expect[1]}, dims {case.expect[2]}")
+            return None
         if case.expect is not None:
             if impl.startswith("C ERR"):
                 return f"unit expression rejected, expected {case.expect}"
@@ -149,6 +167,37 @@ class C05(Prop):
             text = C.unhex(f[1]).strip()[1:].strip()  # drop the leading value `1`
             if f[2] == "OK" and f[5] != "?":
                 out.append(Case("unit " + C.hexs(text), "unitexpr", text, expect=f[5]))
+        # the same unit twice with different prefixes (a Compound holds one prefix per unit, so
+        # the tool may refuse; if it accepts, the reading must keep the power of ten between them)
+        from fractions import Fraction
+        bykey = {}
+        for n in v.names:
+            bykey.setdefault(n[1], n)
+        self._bykey = bykey
+        simple = [w for w in v.plain_words if w[0] == "" and w[1].isascii() and w[1].isalpha()]
+        pref = [w for w in v.plain_words if w[0] != "" and w[1].isascii() and w[1].isalpha()]
+        by_name = {}
+        for w in pref:
+            by_name.setdefault(w[1], []).append(w)
+        forms = [(1, -1, "{a}/{b}"), (1, -3, "{a}/{b}^3"), (2, -2, "{a}^2/{b}^2"), (1, -1, "{a}*{b}^-1"), (-1, 1, "1/{a}*{b}"),
+                 (1, -1, "{a} s/{b}"), (2, -1, "{a}^2/{b}"), (1, 1, "{a}*{b}")]
+        picks = simple[:: 5 if tier == "quick" else 1]
+        for w0 in picks:
+            alts = by_name.get(w0[1], [])
+            if not alts:
+                continue
+            for w1 in [alts[0], alts[-1]] + ([rng.choice(alts)] if len(alts) > 2 else []):
+                for (pa, pb, form) in forms:
+                    for (a, b) in ((w0, w1), (w1, w0)):
+                        text = form.format(a=a[0] + a[1], b=b[0] + b[1])
+                        extra_s = " s/" in text
+                        scale = (Fraction(10) ** a[3] * a[5]) ** pa * (Fraction(10) ** b[3] * b[5]) ** pb
+                        dims = [x * (pa + pb) for x in a[4]]
+                        if extra_s:
+                            dims[3] += 1
+                        c = Case("unit " + C.hexs(text), "unitexpr-mixed", text)
+                        c.expect = ("MIXED", scale, tuple(dims))
+                        out.append(c)
         # hand-written expression forms from the property text
         for text, exp in [("m s", "Meter:1:0,Second:1:0"), ("m*s", "Meter:1:0,Second:1:0"), ("ms", None),
                           ("m/s", "Meter:1:0,Second:-1:0"), ("m/s*kg", "KiloGram:-1:0,Meter:1:0,Second:-1:0"),
